@@ -36,11 +36,13 @@ class MMDesc:
     def __init__(self):
         self.classes = []   # (cid, abstract, [super cids])
         self.feats = []
+        self.falsy = set()  # cids whose instances are falsy (a class defining __bool__/__len__, as static ones may)
 
     def lines(self):
         out = []
         for (cid, abstract, supers) in self.classes:
-            out.append(f"mm class {cid} abstract={1 if abstract else 0} supers={','.join(map(str, supers)) or '-'}")
+            out.append(f"mm class {cid} abstract={1 if abstract else 0} supers={','.join(map(str, supers)) or '-'}"
+                       + (' falsy=1' if cid in self.falsy else ''))
         out += [f.line() for f in self.feats]
         out.append('mm end')
         return out
@@ -113,7 +115,14 @@ def gen_mm(rng, profile='mixed'):
         many = rng.random() < .5
         mm.add_feat(owner=cls(), name='', ref=False, many=many, ordered=rng.random() < .8,
                     unique=(rng.random() < .5) if many else True, cont=False, typ=('dt', rng.choice(DTYPES)))
+    add_falsy(rng, mm)
     return mm
+
+
+def add_falsy(rng, mm):
+    """now and then the instances of some classes are falsy objects (the Python class defines __bool__)"""
+    if rng.random() < .25:
+        mm.falsy = {c[0] for c in mm.classes if rng.random() < .6}
 
 
 def build_mm(mm):
@@ -125,6 +134,8 @@ def build_mm(mm):
         c = E.EClass(f'C{cid}', abstract=abstract)
         classes.append(c)
         pk.eClassifiers.append(c)
+        if cid in getattr(mm, 'falsy', ()):
+            c.python_class.__bool__ = lambda self: False
     for (cid, abstract, supers) in mm.classes:
         for s in supers:
             classes[cid].eSuperTypes.append(classes[s])
@@ -358,15 +369,40 @@ class World:
             c.extend([self.val(t) for t in a[2:]]); return None
         if op == 'iadd':
             c += [self.val(t) for t in a[2:]]; return None
+        if op in SETOPS:
+            vals = [self.val(t) for t in a[2:]]
+            if op == 'discard':
+                c.discard(vals[0])
+            elif op == 'diffupd':
+                c.difference_update(vals)
+            elif op == 'interupd':
+                c.intersection_update(vals)
+            elif op == 'symupd':
+                c.symmetric_difference_update(vals)
+            elif op == 'isub':
+                c -= vals
+            elif op == 'iand':
+                c &= vals
+            elif op == 'ixor':
+                c ^= vals
+            else:
+                c |= vals
+            return None
         if op == 'delslice':
             del c[int(a[2]):int(a[3])]; return None
         if op == 'setslice':
             c[int(a[2]):int(a[3])] = [self.val(t) for t in a[4:]]; return None
+        if op == 'imul':
+            c *= int(a[2]); return None
         raise common.InfraError('bad op ' + op)
 
 
 # ------------------------------------------------------------------------------------------------
 # history generation (op by op, looking at the real state so that re-assignment / stealing / failures are frequent)
+
+# the other mutators of a unique many-valued feature (Model/SetOps.lean)
+SETOPS = ('discard', 'diffupd', 'isub', 'interupd', 'iand', 'symupd', 'ixor', 'ior')
+
 
 class Gen:
     def __init__(self, rng, mm, world, triggers=False, weights=None, focus=None, max_objs=7):
@@ -496,6 +532,45 @@ class Gen:
                 if v is None or v[0] == 'n':
                     continue
                 return f'setitem {x} {f.fid} {idx} {v[0]}'
+            if not f.unique and j < .82:
+                # a list-like feature: slices (what comes in may be what leaves) and *=
+                a_ = rng.randint(0, n)
+                b_ = rng.randint(a_, min(n, a_ + 3))
+                k_ = rng.random()
+                if k_ < .3:
+                    return f'delslice {x} {f.fid} {a_} {b_}'
+                if k_ < .4:
+                    if f.ref and not self.triggers and n:
+                        continue        # (copies of a reference's elements are the trigger of F-C07-1)
+                    return f'imul {x} {f.fid} {rng.choice([-1, 0, 1, 2])}'
+                vs = []
+                for _ in range(rng.randint(0, 3)):
+                    if b_ > a_ and rng.random() < .5:
+                        vs.append(w.tok(cur[rng.randrange(a_, b_)]))
+                    else:
+                        v = self.value_for(f, x)
+                        if v is not None and v[0] != 'n':
+                            vs.append(v[0])
+                if f.ref and len(set(vs)) != len(vs) and not self.triggers:
+                    continue
+                return f"setslice {x} {f.fid} {a_} {b_} {' '.join(vs)}".rstrip()
+            if f.unique and j < .82:
+                kind = rng.choice(SETOPS)
+                vs = []
+                for _ in range(1 if kind == 'discard' else rng.randint(0, 3)):
+                    if cur and rng.random() < .55:
+                        vs.append(w.tok(rng.choice(cur)))
+                    else:
+                        v = self.value_for(f, x)
+                        if v is not None and v[0] != 'n':
+                            vs.append(v[0])
+                if (kind == 'discard' and not vs) or len(set(vs)) != len(vs):
+                    continue
+                if 'x:dict' in vs and kind not in ('symupd', 'ixor', 'ior'):
+                    continue     # asking a set about an unhashable value is a TypeError of Python's, not a type check
+                if f.ref and kind in ('symupd', 'ixor', 'ior') and not self.multi_ok(f, x, vs):
+                    continue
+                return f"{kind} {x} {f.fid} {' '.join(vs)}".rstrip()
             vs = []
             for _ in range(rng.randint(0, 3)):
                 v = self.value_for(f, x)
